@@ -119,6 +119,7 @@ let () =
                if List.for_all (fun c -> c <> None) cps
                then Some (Some (s_extend before (List.filter_map (fun c -> c) cps))) else None
              | ["clear"] -> Some (Some [])
+             | ["clone_from"; t] -> Some (Some (bytes_of_hex t))
              | ["clone"] | ["shrink_to_fit"] -> Some (Some before)
              | ["insert"; i; cp] -> (match s_insert before (n_of_string i) (n_of_string cp) with SRet s -> Some (Some s) | SPanic -> Some None)
              | ["truncate"; n] -> (match s_truncate before (n_of_string n) with SRet s -> Some (Some s) | SPanic -> Some None)
